@@ -374,6 +374,8 @@ func ruleR8(p *Prog) []Ob {
 			obs = append(obs, ob)
 		}
 	}
+	obs = append(obs, p.lookupExtraObligations(lookups)...)
+	obs = append(obs, p.keyHashObligation())
 	return dedupObs(obs)
 }
 
